@@ -102,7 +102,7 @@ func roundScenarios() []roundScenario {
 				}
 				return rs
 			}},
-		{name: "round-scalars", doc: "1-2 offers (cpus x mem) x 1-2 (thorough 3) descriptors (cpu x mem wants; thorough: limits block) x executor share {0, the default 0.01 cpu / 64 MB}",
+		{name: "round-scalars", doc: "1-2 offers (cpus x mem) x 1-2 (thorough 3) descriptors (cpu x mem wants; thorough: limits block), free or all pinned to the first host by machine_id (pre-matching path) x executor share {0, the default 0.01 cpu / 64 MB}",
 			q: vrt.Bounds{Dev: 1, Seconds: 300}, t: vrt.Bounds{Dev: 1, Seconds: 1500},
 			gen: func(tier string) roundSpec {
 				h1 := ampleOffer("h1")
@@ -121,9 +121,15 @@ func roundScenarios() []roundScenario {
 				if tier == "thorough" {
 					maxN = 3
 				}
+				// pinned: every descriptor names its host (machine_id == h1, the way production workflows do): the handler then
+				// takes its pre-matching path (a loop of its own, with its own fit test and its own verdict "undeployable")
+				pinned := vrt.ChooseFree(2, "pinned-to-h1") == 1
 				n := 1 + vrt.ChooseFree(maxN, "descriptors")
 				for i := 0; i < n; i++ {
 					d := plainDesc(fmt.Sprintf("t%d", i))
+					if pinned {
+						d.roleCts = []kv{{"machine_id", "h1"}}
+					}
 					d.cpu = pick(d.name+".cpu", 1.0, 2.0)
 					d.mem = pick(d.name+".mem", 128.0, 256.0)
 					if i == 0 && tier == "thorough" {
@@ -133,18 +139,35 @@ func roundScenarios() []roundScenario {
 				}
 				return rs
 			}},
-		{name: "round-ports", doc: "1 offer x 7 port layouts x 1-2 descriptors (static ranges, 0-2 tcp channels, control mode; thorough: ipc channel, fairmq, hook)",
+		{name: "round-ports", doc: "1 offer x 7 port layouts x 1-2 descriptors, free or pinned to the host by machine_id (pre-matching path) (static ranges, 0-2 tcp channels in the template, 0-1 tcp channel with a global alias added by the task role, optionally re-defining the template's tcp0, control mode; thorough: channel at the enclosing role, ipc channel, fairmq, hook)",
 			q: vrt.Bounds{Dev: 1, Seconds: 300}, t: vrt.Bounds{Dev: 2, Seconds: 1500},
 			gen: func(tier string) roundSpec {
 				h1 := ampleOffer("h1")
 				pl := portLayouts[vrt.ChooseFree(len(portLayouts), "offer.ports")]
 				h1.ports, h1.portsName = pl.ports, pl.name
 				rs := roundSpec{offers: []offerSpec{h1}, request: true}
+				pinned := vrt.ChooseFree(2, "pinned-to-h1") == 1
 				n := 1 + vrt.ChooseFree(2, "descriptors")
 				for i := 0; i < n; i++ {
 					d := plainDesc(fmt.Sprintf("t%d", i))
+					if pinned {
+						d.roleCts = []kv{{"machine_id", "h1"}}
+					}
 					d.static = pick(d.name+".static", [][2]uint64(nil), [][2]uint64{{9000, 9000}}, [][2]uint64{{30000, 30001}})
 					d.tcp = vrt.ChooseFree(3, d.name+".tcp")
+					if i == 0 {
+						// inbound channels the workflow adds to the task (task role: rtcp0 with a global alias, optionally
+						// re-defining the template's tcp0; thorough: one more at the enclosing role)
+						switch pick(d.name+".role-bind", "none", "rtcp0", "rtcp0+tcp0") {
+						case "rtcp0":
+							d.roleTcp = 1
+						case "rtcp0+tcp0":
+							d.roleTcp, d.roleDup = 1, true
+						}
+						if tier == "thorough" {
+							d.ancTcp = vrt.ChooseFree(2, d.name+".encl-bind")
+						}
+					}
 					if tier == "thorough" && i == 0 {
 						d.ipc = vrt.ChooseFree(2, d.name+".ipc")
 						d.mode = pick(d.name+".mode", "direct", "basic", "fairmq", "hook")
